@@ -54,7 +54,7 @@ def random_edit(rng, spec, state, kinds):
         if len(pool) >= 2:
             a, b = rng.sample(pool, 2)
             va, vb = state["inputs"][a], state["inputs"][b]
-            if va != vb:
+            if va != vb and len(str(va)) == len(str(vb)):      # equal digit counts: see finding F3 (separator-less join)
                 state["old"].setdefault(a, []).append(va)
                 state["old"].setdefault(b, []).append(vb)
                 state["inputs"][a], state["inputs"][b] = vb, va
